@@ -77,6 +77,18 @@ Theorem C02_resolution_implicit : forall st callee whole args has_args p,
 Proof. exact resolution_implicit. Qed.
 Print Assumptions C02_resolution_implicit.
 
+(* 6b. the resolution clause is FALSE of the faithful model for a field written with its qualifier (open finding
+   D-C02-3): in class p.q.A, whose first import is r.s.Foo, this.bar.go() - bar a field of the project class p.q.Bar -
+   is filed under node "this.bar" and package r.s; the same call written bar.go() is filed under Bar / p.q.  The
+   witness, replayed on the implementation, is what the check prints as KNOWN-FINDING. *)
+Theorem C02_resolution_this_field_refuted :
+  exists (idents : list string) (u : junit),
+    map (fun d => map (fun f => map (fun c => (c_pkg c, c_node c, c_fn c)) (f_calls f)) (d_funcs d))
+        (snd (analysis_files fstate0 idents [u]))
+    = [[[("r.s", "this.bar", "go"); ("p.q", "Bar", "go")]]].
+Proof. exact resolution_this_field_refuted. Qed.
+Print Assumptions C02_resolution_this_field_refuted.
+
 (* non-vacuity: a body with a parameter receiver, a creation, a field receiver and an implicit
    receiver; every hypothesis above is met by these events *)
 Example C02_example :
